@@ -113,11 +113,12 @@ const (
 	OpSetRemove    // the set disappears from the API (caches lag)
 	OpAddOrphanPod // somebody creates an unowned pod named S-<a> whose labels match the selector
 	OpOrphanPod    // the owner references of pod a are stripped (orphaning delete of a previous owner, manual edit)
+	OpClaimTerminating // claim a gets a deletion timestamp and is held by the pvc-protection finalizer (somebody deleted it while in use)
 	numOpKinds
 )
 
 var opNames = [...]string{"reconcile", "kubelet", "refreshAll", "refreshPod", "refreshSet", "editReplicas", "slotAdd", "slotRemove",
-	"editTemplate", "editPartition", "editMeta", "userDeletePod", "settle", "scaleInAt", "pause", "markDeleting", "restart", "editLimit", "editStrategy", "setRecreate", "setRemove", "addOrphanPod", "orphanPod"}
+	"editTemplate", "editPartition", "editMeta", "userDeletePod", "settle", "scaleInAt", "pause", "markDeleting", "restart", "editLimit", "editStrategy", "setRecreate", "setRemove", "addOrphanPod", "orphanPod", "claimTerminating"}
 
 // Fault kinds for a reconcile op
 const (
@@ -736,6 +737,17 @@ func (s *Sys) envOp(k, a, b int) {
 				p.OwnerReferences = nil
 				c.Put(p)
 				s.logf("somebody creates unowned pod %s", name)
+			}
+		}
+	case OpClaimTerminating:
+		if claims := c.PVCs(); len(claims) > 0 {
+			pvc := claims[abs(a)%len(claims)]
+			if pvc.DeletionTimestamp == nil {
+				ts := c.Tick()
+				pvc.DeletionTimestamp = &ts
+				pvc.Finalizers = append(pvc.Finalizers, "kubernetes.io/pvc-protection")
+				c.Put(pvc)
+				s.logf("user: claim %s deleted (terminating, held by its finalizer)", pvc.Name)
 			}
 		}
 	case OpOrphanPod:
